@@ -15,6 +15,7 @@ from ..simkit import gen, refmodel
 from ..simkit.backends import BackendFault, classes
 from ..simkit.core import call, judge, clear_library_caches
 from ..simkit.simfs import Seams, SimFS
+from ..simkit.simalloc import SimAlloc
 from ..simkit.simrng import POLICIES, SimRNG
 
 PID = "C15"
@@ -94,6 +95,7 @@ class World:
                 s = {"op": "estimate", "args": {"runner": r.randrange(8), "tasks": tasks}}
                 if r.random() < pf:
                     s["fault"] = r.choice([{"kind": "peer", "at": r.randrange(0, 4)}, {"kind": "peer", "at": 0, "how": "no-batch"},
+                                           {"kind": "alloc", "at": r.randrange(0, 40)},
                                            {"kind": r.choice(["enospc", "eio", "eacces", "eio_close"]), "at": r.randrange(0, 5), "frac": r.random()}])
             elif op == "exact":
                 tasks = []
@@ -155,9 +157,10 @@ class World:
             seams.restore()
             rng.restore()
             raise
-        return {"fs": fs, "seams": seams, "rng": rng, "runners": runners}
+        return {"fs": fs, "seams": seams, "rng": rng, "runners": runners, "alloc": SimAlloc().install()}
 
     def cleanup(self, st):
+        st["alloc"].restore()
         st["seams"].restore()
         st["rng"].restore()
 
@@ -216,11 +219,13 @@ class World:
             base["obj"].batch_unsupported = bool(f and f["kind"] == "peer" and f.get("how") == "no-batch")
         no_batch = base["spec"]["kind"] == "tagged" and base["obj"].batch_unsupported
         st["rng"].begin_step(step["rs"])
-        st["fs"].begin_call(f if f and f["kind"] != "peer" and kind == "tracker" else None)
+        st["fs"].begin_call(f if f and f["kind"] not in ("peer", "alloc") and kind == "tracker" else None)
+        st["alloc"].begin_call(f if f and f["kind"] == "alloc" else None)
         mark = len(R["requests"])
         snapshot = [(id(t.operator), id(t.circuit), t.number_of_shots, repr(t.operator), repr(t.circuit)) for t in tasks]
         ok, res = call(estimate_expectation_values_by_averaging, R["obj"], tasks)
         fired = st["fs"].end_call()
+        alloc_fired = st["alloc"].end_call()
         if base["spec"]["kind"] == "shot":
             base["obj"].fail_at = None
         elif base["spec"]["kind"] == "tagged":
@@ -230,6 +235,12 @@ class World:
             ctx.fault(x[0])
         ctx.called("estimate_expectation_values_by_averaging")
         sig = f"{kind}/" + "".join(k[0] for k in kinds)
+        if alloc_fired:
+            ctx.fault("alloc-fault")
+            ctx.probe("alloc-fault")
+            if not ok:   # the real simulator died of a failed allocation: the failure is reported, nothing partial is returned
+                ctx.log("estimate", "alloc-fault", _sig=sig)
+                return
         if not ok and isinstance(res, BackendFault):
             ctx.fault("peer-fault")
             ctx.probe("peer-fault")
